@@ -53,7 +53,7 @@ def main(tier, seed=0):
     if tier == "quick":
         runs = [C09Spec("astd", 4)]
     else:
-        runs = [C09Spec("astd", 5), C09Spec("tok", 4), C09Spec("sync", 5, sides=("s",))]
+        runs = [C09Spec("astd", 6), C09Spec("tok", 5), C09Spec("sync", 6, sides=("s",))]
     total = None
     merr_all = []
     capped_any = False
